@@ -160,6 +160,19 @@ main()
         if (st != Device_Ok)
             return 3;
     }
+    // Two device managers in one process (two runtimes, a tool next to the runtime): A was created first and is destroyed while
+    // B lives on; every operation below goes to B and must behave exactly as with a single manager (the driver libraries are shared
+    // by both: whatever A's shutdown does to them must not reach B).
+    if (getenv("H_SELECT_TWO_MANAGERS")) {
+        struct DeviceManager dm2 = { 0 };
+        snprintf(g_cur, sizeof(g_cur), "(second manager)");
+        if (device_manager_init(&dm2, reporter) != Device_Ok || device_manager_destroy(&dm) != Device_Ok) {
+            fprintf(g_out, "SECOND-MANAGER err\n");
+            fflush(g_out);
+            return 3;
+        }
+        dm = dm2;
+    }
 
     static char line[4096];
     while (fgets(line, sizeof(line), g_in)) {
